@@ -78,7 +78,7 @@ def gen_refine(rng, combo=None):
     return dict(data=np.array(data, dtype=np.float32), zero=zero, a=a, b=b, shifts=shifts, zs=zs, zk=zk, radius=radius, search=search, indices=idx, layout=layout,
                 correlation=str(rng.choice(['fast', 'fullframe', 'sparse'])) if combo is None else combo[0],
                 match=str(rng.choice(['fast', 'affine'])) if combo is None else combo[1],
-                tolerance=float(rng.choice([0.4, 1.0, 3.0])), parts=rand_partitions(rng, n))
+                tolerance=float(rng.choice([0.4, 1.0, 3.0])) if combo is None or len(combo) < 4 else combo[3], parts=rand_partitions(rng, n))
 
 
 def refine_failure(c):
@@ -231,7 +231,7 @@ def replay(body):
 def run(ctx):
     rng = ctx.rng
     ctx.check_theorems()
-    ctx.check_generated(['qlat', 'uint', 'kcrop', 'dint'])
+    ctx.check_generated(['qlat', 'uint', 'kcrop', 'dint', 'urefine'])
     # (K) IntegrationUDF vs UDF.integrate (exact integers x quantised mask)
     exprs, meta = [], []
     nq = ctx.n(10, 80)
@@ -289,6 +289,8 @@ def run(ctx):
         ctx.violation('input', d, {'kind': 'input', 'call': 'run_refine dispatch', 'args': {}})
     # every (correlation, match) combination with and without a zero shift first (sparse: only without), then random ones
     combos = [(cr, mt, zk) for cr in ('fast', 'fullframe', 'sparse') for mt in ('fast', 'affine') for zk in (('none',) if cr == 'sparse' else ('none', 'perframe'))]
+    # fractional per-frame shifts with a tight matcher: the start zero of the fast match must carry the un-rounded shift
+    combos += [('fast', 'fast', 'fractional', 0.4), ('fullframe', 'fast', 'fractional', 0.4)]
     for k in range(ctx.n(24, 300)):
         c = gen_refine(rng, combos[k] if k < len(combos) else None)
         fail = refine_failure(c)
